@@ -26,6 +26,15 @@ def _tags_accesses(fn):
     return out
 
 
+def _is_tag_lookup(e):
+    """``self.tags.get(...)`` / ``self.tags[...]`` / ``X.tags.get(...)``"""
+    if isinstance(e, ast.Call) and isinstance(e.func, ast.Attribute) and e.func.attr == "get" and unparse(e.func.value).endswith(".tags"):
+        return True
+    if isinstance(e, ast.Subscript) and unparse(e.value).endswith(".tags") and isinstance(e.ctx, ast.Load):
+        return True
+    return False
+
+
 def _is_str_call(e):
     return isinstance(e, ast.Call) and isinstance(e.func, ast.Name) and e.func.id == "str" and len(e.args) == 1
 
@@ -233,6 +242,40 @@ def run(ctx):
         and not any(isinstance(x, (ast.Dict, ast.DictComp)) for x in walk_no_nested(gt)) and "reversed" not in unparse(loops[0].iter)
     ctx.instance("C18.typed-lookups", "get_group_by_tag[first match in list order]", ok,
                  "get_group_by_tag() no longer scans the items in index order returning the first match", loc(gt))
+
+    # presence of a tag is decided by identity / membership, never by the truthiness of the stored value ("" is a legal value)
+    n_tr = 0
+    for q, f in sorted(repo.functions.items()):
+        if not (q.startswith("FIXContainer.") or q.startswith("FIXMessage.")):
+            continue
+        looked = set()
+        for n in walk_no_nested(f):
+            if isinstance(n, ast.Assign) and len(n.targets) == 1 and isinstance(n.targets[0], ast.Name) and _is_tag_lookup(n.value):
+                looked.add(n.targets[0].id)
+        tests = []
+        for n in walk_no_nested(f):
+            if isinstance(n, (ast.If, ast.While, ast.IfExp)):
+                tests.append(n.test)
+            elif isinstance(n, ast.Assert):
+                tests.append(n.test)
+        atoms = []
+        for t in tests:
+            todo = [t]
+            while todo:
+                x = todo.pop()
+                if isinstance(x, ast.BoolOp):
+                    todo += x.values
+                elif isinstance(x, ast.UnaryOp) and isinstance(x.op, ast.Not):
+                    todo.append(x.operand)
+                else:
+                    atoms.append(x)
+        for a in atoms:
+            bad = (isinstance(a, ast.Name) and a.id in looked) or _is_tag_lookup(a)
+            if isinstance(a, ast.Name) and a.id in looked or _is_tag_lookup(a):
+                n_tr += 1
+                ctx.instance("C18.typed-lookups", f"{q}[truthiness of stored value `{short(a, 30)}`]", not bad,
+                             f"{q} decides on the truthiness of the value stored under a tag: a tag holding '' (a legal value) is treated as missing", loc(a))
+    ctx.instance("C18.typed-lookups", "FIXContainer[presence by identity/membership]", True)
 
     # ---- rule 5 equality
     eq = methods["__eq__"]
